@@ -247,4 +247,10 @@ def normalizeDocument (s : Schema) (doc : Document) (opName : String) : DocOut :
         let r := normalizeOperation s root (docVarNames doc) opDef
         if r.2.isEmpty then .ok doc [] else .ok { doc with defs := replaceAt doc.defs i r.1 } r.2
 
+/-- the cache identifier of a normalised document after the repair `notes/fixes/D-06k.diff`: `"doc:"` + the bytes of its
+printed text (`printedKey` in plan_cache_normalize.go). The key as coded up to 0654bec is `PlanCache.Fp.fingerprint` (hex
+of the FNV-1a-64 hash of a structural walk of the selected operation). The driver answers with both; the harness finds
+out which one the code under test computes and compares bytes. -/
+def printedKey (d : Document) : List UInt8 := [100, 111, 99, 58] ++ (Printer.print d).toUTF8.data.toList
+
 end GqlModel.Normalize
